@@ -625,6 +625,7 @@ func init() {
 	// ---- runtime bits that interpreted std code touches
 	I["runtime.Gosched"] = func(ex *Exec, th *Thread, fn *ssa.Function, a []Value) (Value, bool) { return nil, false }
 	I["runtime.KeepAlive"] = I["runtime.Gosched"]
+	I["(*strings.Builder).copyCheck"] = I["runtime.Gosched"] // self-pointer bookkeeping through uintptr tricks; copying a Builder is not modelled
 	I["runtime.SetFinalizer"] = I["runtime.Gosched"]
 	I["internal/race.Enable"] = I["runtime.Gosched"]
 	I["internal/race.Disable"] = I["runtime.Gosched"]
